@@ -610,4 +610,141 @@ Section Proofs.
   Theorem kept_nodes_unchanged_lemma : forall kept ss n, keptb kept n = true ->
     nget n (g_nodes (build_graph kept ss)) = nget n (g_nodes (build_graph None ss)).
   Proof. intros. rewrite !build_nval. apply spec_nval_kept. assumption. Qed.
+
+  (* ---------------- the graph that is reported (after selectNodesForGraph) ---------------- *)
+  Notation new_graph := (new_graph K keqb).
+
+  Lemma step_nodup : forall w dw st f,
+    NoDup (tkeys (g_nodes (w_g K st))) -> NoDup (tkeys (g_nodes (w_g K (step w dw st f)))).
+  Proof.
+    intros w dw st f H. unfold M_Graph.step. destruct f as [[n|] i]; simpl; [|exact H].
+    assert (H1 : NoDup (tkeys (g_nodes (if memK n (w_seenN K st) then w_g K st else add_cum K keqb (w_g K st) n w dw)))).
+    { destruct (memK n (w_seenN K st)); [exact H|]. simpl. apply nupd_nodup. exact H. }
+    destruct (w_parent K st) as [p|]; [|exact H1].
+    destruct (negb (memE (n, p) (w_seenE K st)) && negb (keqb n p))%bool; exact H1.
+  Qed.
+
+  Lemma fold_step_nodup : forall w dw fs st,
+    NoDup (tkeys (g_nodes (w_g K st))) -> NoDup (tkeys (g_nodes (w_g K (fold_left (step w dw) fs st)))).
+  Proof.
+    intros w dw fs. induction fs as [|f r IH]; intros st H; simpl; [exact H|].
+    apply IH. apply step_nodup. exact H.
+  Qed.
+
+  Lemma add_sample_nodup : forall kept g s,
+    NoDup (tkeys (g_nodes g)) -> NoDup (tkeys (g_nodes (add_sample kept g s))).
+  Proof.
+    intros kept g s H. unfold M_Graph.add_sample.
+    destruct ((gs_dw s =? 0) && (gs_w s =? 0))%bool; [exact H|].
+    set (st := fold_left _ _ _).
+    assert (H1 : NoDup (tkeys (g_nodes (w_g K st)))) by (apply fold_step_nodup; exact H).
+    destruct (w_parent K st) as [p|]; [|exact H1].
+    destruct (negb (w_res K st)); [|exact H1]. simpl. apply nupd_nodup. exact H1.
+  Qed.
+
+  Lemma build_nodup : forall kept ss, NoDup (tkeys (g_nodes (build_graph kept ss))).
+  Proof.
+    intros kept ss. unfold M_Graph.build_graph.
+    assert (H : forall g, NoDup (tkeys (g_nodes g)) -> NoDup (tkeys (g_nodes (fold_left (add_sample kept) ss g)))).
+    { induction ss as [|s r IH]; intros g Hg; simpl; [exact Hg|]. apply IH. apply add_sample_nodup. exact Hg. }
+    apply H. constructor.
+  Qed.
+
+  (* every entry shown carries the definition sums, and is one the report does not drop *)
+  Theorem graph_nodes_eq_spec_lemma : forall kept dn ss n v,
+    In (n, v) (g_nodes (new_graph kept dn ss)) ->
+    v = spec_nval K keqb kept ss n /\ node_dropped dn v = false.
+  Proof.
+    intros kept dn ss n v Hin. unfold M_Graph.new_graph, select_nodes in Hin. cbn [g_nodes] in Hin.
+    apply filter_In in Hin. destruct Hin as [Hin Hd]. simpl in Hd. apply negb_true_iff in Hd.
+    split; [|exact Hd].
+    rewrite <- build_nval. symmetry. apply nget_in; [apply build_nodup|exact Hin].
+  Qed.
+
+  (* ... and every edge joins two shown entries *)
+  Theorem graph_edges_closed_lemma : forall kept dn ss e,
+    In e (g_edges (new_graph kept dn ss)) ->
+    (exists v, In (e_src e, v) (g_nodes (new_graph kept dn ss))) /\
+    (exists v, In (e_dst e, v) (g_nodes (new_graph kept dn ss))).
+  Proof.
+    intros kept dn ss e Hin. unfold M_Graph.new_graph, select_nodes in *. cbn [g_nodes g_edges] in *.
+    apply filter_In in Hin. destruct Hin as [_ Ha]. apply andb_prop in Ha. destruct Ha as [H1 H2].
+    apply existsb_exists in H1. apply existsb_exists in H2.
+    destruct H1 as [[k1 v1] [I1 E1]]. destruct H2 as [[k2 v2] [I2 E2]]. simpl in E1, E2.
+    apply keqb_spec in E1. apply keqb_spec in E2. subst k1 k2. split; eexists; eassumption.
+  Qed.
+
+  (* edge table: one entry per (src, dst) *)
+  Definition ekeys (l : list edge) : list (K * K) := map (fun e => (e_src e, e_dst e)) l.
+
+  Lemma eadd_keys_in : forall p n w dw res inl l x,
+    In x (ekeys (eadd p n w dw res inl l)) -> In x (ekeys l) \/ x = (p, n).
+  Proof.
+    intros p n w dw res inl l x. induction l as [|e r IH]; simpl.
+    - intros [H|[]]. right. auto.
+    - destruct (keqb (e_src e) p && keqb (e_dst e) n)%bool eqn:E; simpl.
+      + intros [H|H]; auto.
+      + intros [H|H]; auto. destruct (IH H); auto.
+  Qed.
+
+  Lemma eadd_nodup : forall p n w dw res inl l, NoDup (ekeys l) -> NoDup (ekeys (eadd p n w dw res inl l)).
+  Proof.
+    intros p n w dw res inl l. induction l as [|e r IH]; simpl; intros H.
+    - constructor; [intros []|constructor].
+    - inversion H as [|x xs Hnin Hnd]; subst.
+      destruct (keqb (e_src e) p && keqb (e_dst e) n)%bool eqn:E; simpl.
+      + constructor; auto.
+      + constructor; auto. intros Hin. apply eadd_keys_in in Hin. destruct Hin as [Hin|Hin]; auto.
+        inversion Hin as [[H1 H2]]. rewrite H1, H2, !keqb_refl in E. discriminate.
+  Qed.
+
+  Lemma eget_in : forall l e, NoDup (ekeys l) -> In e l -> eget (e_src e) (e_dst e) l = Some e.
+  Proof.
+    induction l as [|x r IH]; simpl; intros e Hnd Hin; [contradiction|].
+    inversion Hnd as [|y ys Hnin Hnd']; subst.
+    destruct Hin as [H|H].
+    - subst x. rewrite !keqb_refl. reflexivity.
+    - destruct (keqb (e_src x) (e_src e) && keqb (e_dst x) (e_dst e))%bool eqn:E.
+      + apply andb_prop in E. destruct E as [E1 E2]. apply keqb_spec in E1. apply keqb_spec in E2.
+        exfalso. apply Hnin. unfold ekeys. apply in_map_iff. exists e. rewrite E1, E2. auto.
+      + apply IH; auto.
+  Qed.
+
+  Lemma step_enodup : forall w dw st f,
+    NoDup (ekeys (g_edges (w_g K st))) -> NoDup (ekeys (g_edges (w_g K (step w dw st f)))).
+  Proof.
+    intros w dw st f H. unfold M_Graph.step. destruct f as [[n|] i]; simpl; [|exact H].
+    assert (H1 : NoDup (ekeys (g_edges (if memK n (w_seenN K st) then w_g K st else add_cum K keqb (w_g K st) n w dw)))).
+    { destruct (memK n (w_seenN K st)); exact H. }
+    destruct (w_parent K st) as [p|]; [|exact H1].
+    destruct (negb (memE (n, p) (w_seenE K st)) && negb (keqb n p))%bool; [|exact H1].
+    simpl. apply eadd_nodup. exact H1.
+  Qed.
+
+  Lemma build_enodup : forall kept ss, NoDup (ekeys (g_edges (build_graph kept ss))).
+  Proof.
+    intros kept ss. unfold M_Graph.build_graph.
+    assert (HS : forall w dw fs st, NoDup (ekeys (g_edges (w_g K st))) ->
+                 NoDup (ekeys (g_edges (w_g K (fold_left (step w dw) fs st))))).
+    { intros w dw fs. induction fs as [|f r IH]; intros st H; simpl; [exact H|]. apply IH. apply step_enodup. exact H. }
+    assert (HA : forall g s, NoDup (ekeys (g_edges g)) -> NoDup (ekeys (g_edges (add_sample kept g s)))).
+    { intros g s H. unfold M_Graph.add_sample. destruct ((gs_dw s =? 0) && (gs_w s =? 0))%bool; [exact H|].
+      set (st := fold_left _ _ _).
+      assert (H1 : NoDup (ekeys (g_edges (w_g K st)))) by (apply HS; exact H).
+      destruct (w_parent K st) as [p|]; [|exact H1]. destruct (negb (w_res K st)); exact H1. }
+    assert (H : forall g, NoDup (ekeys (g_edges g)) -> NoDup (ekeys (g_edges (fold_left (add_sample kept) ss g)))).
+    { induction ss as [|s r IH]; intros g Hg; simpl; [exact Hg|]. apply IH. apply HA. exact Hg. }
+    apply H. constructor.
+  Qed.
+
+  Theorem graph_edges_eq_spec_lemma : forall kept dn ss e,
+    In e (g_edges (new_graph kept dn ss)) ->
+    e_w e = wrap_i64 (edge_spec K keqb false kept ss (e_src e) (e_dst e)) /\
+    e_wdiv e = wrap_i64 (edge_spec K keqb true kept ss (e_src e) (e_dst e)).
+  Proof.
+    intros kept dn ss e Hin. unfold M_Graph.new_graph, select_nodes in Hin. cbn [g_edges] in Hin.
+    apply filter_In in Hin. destruct Hin as [Hin _].
+    pose proof (eget_in _ e (build_enodup kept ss) Hin) as HG.
+    rewrite <- (build_edge false), <- (build_edge true). unfold ew. rewrite HG. split; reflexivity.
+  Qed.
 End Proofs.
